@@ -10,7 +10,7 @@ class Mem:
     """64K memory image with a bump allocator."""
     def __init__(self, rng, base, limit=65536, random_fill=True):
         self.rng = rng
-        self.mem = bytearray(rng.randrange(256) for _ in range(65536)) if random_fill else bytearray(65536)
+        self.mem = bytearray(rng.randbytes(65536)) if random_fill else bytearray(65536)
         self.base = base
         self.top = base
         self.limit = limit
